@@ -38,6 +38,10 @@ def req_lines(kind):
             'Production Well Diameter': '9.5', 'Injection Well Diameter': '6.5', 'Production Flow Rate per Well': '33', 'Injection Temperature': '61', 'Water Loss Fraction': '0.07',
             'Reservoir Heat Capacity': '1111', 'Reservoir Density': '2555', 'Reservoir Thermal Conductivity': '3.3', 'Well Drilling Cost Correlation': '3',
             'Discount Rate': '0.083', 'Fixed Internal Rate': '9.1', 'Starting Heat Sale Price': '0.041', 'Ending Heat Sale Price': '0.077', 'Utilization Factor': '0.71'}))
+    if kind == 'okCap2':   # two gradient segments with the maximum-temperature cap reached in the last one (depth reduced): sensitive to
+        # per-segment scratch data left behind by a run with more segments (okOdd has three)
+        return F.lines(F.override(F.base(2, 2, 9, 4, (3, 2, 1)), {'Number of Segments': '2', 'Gradient 1': '60', 'Gradient 2': '90', 'Thickness 1': '1',
+                                                                'Reservoir Depth': '5', 'Maximum Temperature': '200'}))
     if kind == 'okS':      # closed loop (SBT): other module classes, own numerical kernels
         return F.lines(F.sbt_base(3, 1, 2, (4, 2, 1), 5))
     if kind == 'failX':    # aborts through a bare sys.exit() inside the core (user-provided temperature profile that does not exist)
@@ -54,9 +58,9 @@ def req_lines(kind):
     raise KeyError(kind)
 
 
-EVENTS_QUICK = ['okE/c', 'okH/c', 'okA/c', 'okD/c', 'okU/c', 'okX/c', 'okDef/c', 'okOdd/c', 'okS/c', 'hip', 'failR/c', 'failC/c', 'failP/c', 'failX/c', 'rewrite/c',
+EVENTS_QUICK = ['okE/c', 'okH/c', 'okA/c', 'okD/c', 'okU/c', 'okX/c', 'okDef/c', 'okOdd/c', 'okCap2/c', 'okS/c', 'hip', 'failR/c', 'failC/c', 'failP/c', 'failX/c', 'rewrite/c',
                 'rewrite:failX/c', 'rewrite@same/c', 'rewrite@older/c', 'okE/n']
-EVENTS_L3 = ['okOdd/c', 'okDef/c', 'okU/c', 'failX/c', 'rewrite/c', 'rewrite:failX/c']
+EVENTS_L3 = ['okOdd/c', 'okDef/c', 'okCap2/c', 'okU/c', 'failX/c', 'rewrite/c', 'rewrite:failX/c']
 EVENTS_THOROUGH = EVENTS_QUICK + ['okD2/c', 'failR/n', 'okH/n', 'rewrite:failR/c', 'okDef/n', 'rewrite:failX@same/c', 'rewrite@same/n']
 
 
@@ -195,6 +199,8 @@ def judge(history, out, refs, res):
         for key in ('numpy_attrs', 'root_handlers', 'env', 'caller_dir_files', 'stdout_is_original'):
             if st[key] != pristine[key]:
                 check.fail(res, f'process_state_leak/{key}/{ev}', f'{ctx}: {key} is {st[key]!r}, pristine {pristine[key]!r}')
+        for name in st.get('lib_data_changed') or []:
+            check.note(res, 'library_data_changed_by_requests', f'{name} (after {ev})')      # listed, not judged: see histx.library_data
     return check.digest([{k: v for k, v in out['records'][-1]['state'].items()}, out['records'][-1]['cwd_restored'], out['records'][-1]['argv_same_contents']])
 
 
@@ -311,11 +317,11 @@ def run(tier, seed, budget=None):
     mod = sys.modules[__name__]
     r = e1.run_generic(
         mod, PID, tier, seed, budget,
-        rule=('explicit-state search over request histories, each replayed in one real process: quick = ALL histories of length <= 2 over 19 events '
-              '(9 successful GEOPHIRES requests incl. add-ons, district heating, input units, output-unit directives, an all-defaults request, a many-non-defaults '
-              'request and a closed-loop (SBT) request; HIP-RA-X; 4 failing requests that fail while reading / calculating / printing / through a bare sys.exit(); rewrite-the-file-with-other-content '
-              '(succeeding or aborting; modification time newer, unchanged or older)-and-ask-again; a non-caching client) plus ALL histories of length 3 over 6 events; thorough = all histories of length <= 3 '
-              'over 26 events + pruned depth 4; starting directory alternates. References: each request alone '
+        rule=('explicit-state search over request histories, each replayed in one real process: quick = ALL histories of length <= 2 over 20 events '
+              '(10 successful GEOPHIRES requests incl. add-ons, district heating, input units, output-unit directives, an all-defaults request, a many-non-defaults '
+              'request, a two-segment request capped in its last segment and a closed-loop (SBT) request; HIP-RA-X; 4 failing requests that fail while reading / calculating / printing / through a bare sys.exit(); rewrite-the-file-with-other-content '
+              '(succeeding or aborting; modification time newer, unchanged or older)-and-ask-again; a non-caching client) plus ALL histories of length 3 over 7 events; thorough = all histories of length <= 3 '
+              'over 27 events + pruned depth 4; starting directory alternates. References: each request alone '
               'in pristine interpreters under PYTHONHASHSEED 0/1/12345 and two directories. States = digest of the process-state vector after the history'),
         assumptions=['functools memo tables are pure caches and excluded from the state comparison (reported in evidence)',
                      'result equality is on the complete parsed content of the returned result object (all categories and profile tables; metadata with paths/clock excluded) and on the full report text for HIP-RA-X'],
